@@ -116,6 +116,9 @@ def run(ctx):
                 jobs.append(('plain', i, pl, fix))
         if has_t:
             jobs.append(('flat', i, flattened(sp), None))
+    for sp in base:
+        if any(a['kind'] == 'StructuredAsset' for a in sp['assets']) and sp['grid'].get('tz') is None:
+            sp['opts']['struct_regrid'] = True
     res = C.run_impl('portfolio', base + [j[2] for j in jobs])
     parts = C.run_impl('assets', base)
     k0 = len(base)
@@ -129,6 +132,13 @@ def run(ctx):
             ctx.count('kind:' + a['kind'] + (':' + a['base']['kind'] if a['kind'] == 'ScaledAsset' else ''))
         if ob.get('status') != 'ok':
             ctx.count('setup_error:' + str(ob.get('error'))[:60])
+        for rg_ in ob.get('regrid') or []:
+            if 'same' in rg_:
+                ctx.cov['impl_oracle_evaluations'] += 1
+                ctx.count('structure moved to the next horizon and set up without a grid')
+                if not rg_['same']:
+                    ctx.violation('impl-violation', {'spec': sp, 'asset': rg_['name'], 'observed': {'problem differs from fresh objects on the new grid (variables)': rg_.get('sizes')},
+                                                     'expected': 'the structure wraps its assets on the grid it currently has'}, trigger={'what': 'structure on a new grid'})
         v = by.get(i, {})
         tol = lambda x: 1e-6 * (1 + abs(x))
         # ---- scaled at a fixed scale = base with scaled capacities, less fixed costs
